@@ -121,10 +121,21 @@ class C09(E1Check):
                                "factory": None, "failed_spawns": set(), "hfail": [], "helpers": {}, "own_td_pending": set()}
         spawns = program["spawns"]
 
-        def handler(exc: Exception) -> Any:
+        def _handler(exc: Exception) -> Any:
             st["handler_calls"].append(exc)
             log("handler", getattr(exc, "tag", "?"))
             return {"true": True, "false": False, "retnone": None}[program["handler"]]
+
+        class _FalsyHandler:
+            """an exception handler object that happens to be falsy (e.g. a collecting handler with __len__)"""
+
+            def __len__(self) -> int:
+                return 0
+
+            def __call__(self, exc: Exception) -> Any:
+                return _handler(exc)
+
+        handler: Any = _FalsyHandler() if len(spawns) == 1 else _handler
 
         def check_handles(where: str, exact: bool) -> None:
             fac = st["factory"]
@@ -215,10 +226,14 @@ class C09(E1Check):
             body = make_body(i, s["body"], expect)
             st["pending_spawn"] = st.get("pending_spawn", set()) | {i}
             try:
+                import functools
+
+                # arguments are passed "via lambda" (documented) or functools.partial: not every task function is a coroutine function
+                fn = body if i % 3 == 0 else (lambda: body()) if i % 3 == 1 else functools.partial(body)
                 if s["how"] == "start_task":
-                    h = await factory.start_task(body, f"t{i}")
+                    h = await factory.start_task(fn, f"t{i}")
                 else:
-                    h = factory.start_task_soon(body, f"t{i}")
+                    h = factory.start_task_soon(fn, f"t{i}")
                     if s["how"] == "soon-cancel":
                         # cancel through the handle before the task has had a chance to run
                         log("cancel", i)
